@@ -103,8 +103,9 @@ Print Assumptions C01_put_failure_resolves.
    For EVERY schedule of that system: it is at most 6 n + 1 steps long; while work remains a
    step other than close() is enabled (no deadlock, in particular not on the slot semaphore);
    and where nothing but close() can move any more, every job is resolved, with its own result,
-   its success callback run exactly once and no error callback, and nothing is left in any
-   queue -- all n of them if close() was not called, else the ones accepted before it.
+   ([outcome_of]: the value its task returns, or the exception its task raises, for any set
+   [bad] of raising tasks), exactly one of its success / error callbacks run exactly once, and
+   nothing is left in any queue -- all n of them if close() was not called, else the ones accepted before it.
    (With failures, resolution is by the theorems above and C04/C05; they are about the open
    model, to which the parent of every reachable closed-system state belongs:
    C01_closed_system_is_the_open_model.) *)
@@ -112,7 +113,9 @@ Theorem C01_completion_when_nothing_fails : forall c n y,
     1 <= c_n c -> sreach c n y -> (forall a, a <> SClose -> sys_step y a = None) ->
     ((forall j, 0 <= j < Z.of_nat (length (jobs (par y))) ->
         exists x, get_job (par y) j = Some x /\ ready x = true
-                  /\ value x = Some (PValue (tag_of j)) /\ cb_succ x = 1 /\ cb_err x = 0)
+                  /\ value x = Some (outcome_of (bad y) j)
+                  /\ cb_succ x = (if task_ok (bad y) j then 1 else 0)
+                  /\ cb_err x = (if task_ok (bad y) j then 0 else 1))
      /\ todo y = 0%nat /\ taskq y = [] /\ inq y = [] /\ outq y = [] /\ somes (wk y) = [])
     /\ (length (jobs (par y)) <= n)%nat
     /\ (pstate (par y) = 0 ->
@@ -121,8 +124,8 @@ Theorem C01_completion_when_nothing_fails : forall c n y,
 Proof. exact completion. Qed.
 Print Assumptions C01_completion_when_nothing_fails.
 
-Theorem C01_every_schedule_is_short : forall c n sched y,
-    srun (sinit c n) sched = Some y -> (length sched <= 6 * n + 1)%nat.
+Theorem C01_every_schedule_is_short : forall c n bd sched y,
+    srun (sinit_bad c n bd) sched = Some y -> (length sched <= 6 * n + 1)%nat.
 Proof. exact every_schedule_is_short. Qed.
 Print Assumptions C01_every_schedule_is_short.
 
@@ -155,6 +158,14 @@ Example C01_closed_system_witness :
      = [(true, Some (PValue 0)); (true, Some (PValue 1))]
   /\ In SClose (snd r).
 Proof. exact closed_system_runs. Qed.
+
+Example C01_closed_system_witness_with_a_raising_task :
+  let c := mkcfg 2 None None None None 1 false false in
+  let r := auto_run 100 [1;2;4;5;1;2;4;5;1;2;4;5;1;2;4;5;1;2;4;5;1;2;4;5;1;2;4;5]%nat (sinit_bad c 3 [1]) in
+  srun (sinit_bad c 3 [1]) (snd r) = Some (fst r) /\ work (fst r) = 0%nat
+  /\ map (fun x => (value x, cb_succ x, cb_err x)) (jobs (par (fst r)))
+     = [(Some (PValue 0), 1, 0); (Some (PExc 1), 0, 1); (Some (PValue 2), 1, 0)].
+Proof. exact closed_system_with_a_raising_task. Qed.
 
 (* non-vacuity: a history in which a job is resolved by a time limit, its late result and
    a duplicate are ignored, and a second job is lost with its worker *)
